@@ -2,7 +2,7 @@
   C15 — Only well-formed payloads are accepted.
   Proved: soundness of acceptance. Whatever the memo bytes, if the parser accepts them then the memo is one
   JSON value, an object whose only root key (however often repeated) is `orbiter`, without `null` in any
-  array, and the payload holds exactly one forwarding with a supported protocol identifier and attributes of
+  array and without an object carrying both members of the fee-type oneof, and the payload holds exactly one forwarding with a supported protocol identifier and attributes of
   a registered *forwarding* type, and pre-actions with pairwise distinct supported identifiers and attributes
   of a registered *action* type. Parsing is a function of the memo and the oneof order only (C19 isolates
   the latter).
@@ -136,6 +136,7 @@ theorem mem_distinctKeys {fs : List (String × Json)} {kv : String × Json} (h :
 /-- **Soundness of acceptance.** -/
 theorem c15_accepted_is_wellformed (π : OneofOrder) (memo : Bytes) (p : Payload) (h : parsePayload π memo = .ok p) :
     ∃ fs, parseJsonWhole memo = some (.obj fs) ∧ Json.distinctKeys fs = [Gen.orbiterPrefix] ∧ (Json.obj fs).nullInArray = false ∧
+      (Json.obj fs).ambiguous = false ∧
       (∃ f at_, p.forwarding = some f ∧ protocolValid f.protocolId = true ∧ f.attrs = some at_ ∧ at_.isForwarding = true) ∧
       (p.preActions.map (·.id)).Nodup ∧
       (∀ a ∈ p.preActions, actionValid a.id = true ∧ ∃ at_, a.attrs = some at_ ∧ at_.isAction = true) := by
@@ -164,6 +165,9 @@ theorem c15_accepted_is_wellformed (π : OneofOrder) (memo : Bytes) (p : Payload
             split at h'
             · cases h'
             · rename_i hnia
+              split at h'
+              · cases h'
+              rename_i hamb
               obtain ⟨r, hr, hval⟩ := Res.bind_eq_ok.mp h'
               have hdec : decWrapper π (.obj fs) = .ok r := by
                 cases hd : decWrapper π (.obj fs) with
@@ -172,7 +176,7 @@ theorem c15_accepted_is_wellformed (π : OneofOrder) (memo : Bytes) (p : Payload
                 | panic e => simp [hd, Res.mapErr] at hr
               obtain ⟨⟨f, hpf, hrf, hpv, hsome⟩, hnd, hacts, hpa, hnone⟩ := validated_shape hval
               obtain ⟨hfa, hff⟩ := unpacked_families hdec
-              refine ⟨fs, rfl, ?_, by simpa using hnia, ?_, hnd, ?_⟩
+              refine ⟨fs, rfl, ?_, by simpa using hnia, by simpa using hamb, ?_, hnd, ?_⟩
               · -- exactly one distinct root key, and it is `orbiter` (the lookup found it)
                 have hlen : (Json.distinctKeys fs).length = 1 := by simpa using hkeys
                 obtain ⟨kv, hm, hkk⟩ := lookupLast_key hk
